@@ -145,7 +145,7 @@ theorem inv_tryReorganize {U : Universe} {s : State} (hI : Inv U s) (h : Nat) : 
 /-- the connected state satisfies the invariant, for every amount of fuel -/
 theorem ssb_grow {U : Universe} {s : State} (hI : Inv U s) {a : Nat} (ha : stored s a) (fuel : Nat) :
     Grow U s (State.saveSubBlock fuel s a) :=
-  (ssbSpec (U := U) (R := fun _ => True) (fun _ _ _ _ _ => trivial) fuel s a hI trivial ha).1
+  (ssbSpec (U := U) (R := fun _ => True) loopClosed_true fuel s a hI trivial ha).1
 
 /-- **`processBlock` preserves the orphan-pool invariant** -/
 theorem inv_processBlock {U : Universe} {s : State} (hI : Inv U s) {b : Header} (hb : Coh U b) :
